@@ -171,9 +171,51 @@ def c03(r):
 
 
 # ----------------------------------------------------------------------------- C04
+def c04_nan(r):
+    """objectives that return NaN on part of the box: the reported bests must be the best NUMBERS kept (NaN is worse than every number in both
+    directions), and never get worse; nothing is required where only NaN individuals exist"""
+    out = []
+    mx = r["spec"]["maximize"]
+    seen = defaultdict(list)
+    prev_best = None
+    for i, e in enumerate(r["events"]):
+        k = e["e"]
+        if k == "gen":
+            seen[e["deme"]] += [fit for _, fit in e["inds"] if not isnan_bits(fit)]
+        elif k in ("stepend", "end", "init") and e.get("bests") is not None:
+            b = e["bests"]
+            everything = [x for v in seen.values() for x in v]
+            if everything:
+                top = max(everything, key=key) if mx else min(everything, key=key)
+                if b["tree"] is None or isnan_bits(b["tree"][1]) or key(b["tree"][1]) != key(top):
+                    out.append(V("C04/tree-best", f"tree best fitness {fl(b['tree'][1]) if b['tree'] else None!r} but the best number stored in the histories is {fl(top)!r} "
+                                                  f"(NaN is worse than every number; metaepoch {e.get('m')})", event=i))
+                for did, bi in b["demes"].items():
+                    if seen[did]:
+                        t = max(seen[did], key=key) if mx else min(seen[did], key=key)
+                        if bi is None or isnan_bits(bi[1]) or key(bi[1]) != key(t):
+                            out.append(V("C04/deme-best", f"deme {did} best {fl(bi[1]) if bi else None!r} but its history holds the number {fl(t)!r} (NaN is worse than every number)", event=i))
+                            break
+                if b["tree"] is not None and not isnan_bits(b["tree"][1]):
+                    if prev_best is not None and better(prev_best, b["tree"][1], mx):
+                        out.append(V("C04/monotone", f"best fitness got worse: {fl(prev_best)!r} -> {fl(b['tree'][1])!r}", event=i))
+                    prev_best = b["tree"][1]
+        if len(out) > 2:
+            break
+    return out
+
+
+def isnan_bits(b):
+    return (b & 0x7FF0000000000000) == 0x7FF0000000000000 and (b & 0xFFFFFFFFFFFFF) != 0
+
+
 def c04(r):
     out = []
     mx = r["spec"]["maximize"]
+    # pyhms orders NaN below every number in BOTH directions (FunctionProblem.worse_than); NaN-vs-NaN is a coin and is not compared
+    has_nan = r["spec"]["objective"]["kind"] == "nanhole"
+    if has_nan:
+        return c04_nan(r)
     seen = defaultdict(list)  # deme -> fitness keys of everything in its history
     prev_best = None
     allcalls_nonlocal = []
